@@ -93,4 +93,10 @@ CHECKS = {
         "Behaviours H ; reset communication | reset node ; probe, with H covering every edge of each bounded model plus walks, are replayed: after the reset the free timer slots, mode, heartbeat timing, consumer monitoring from the first heartbeat, SYNC production / consumption, silent PDOs until OPERATIONAL, an idle and usable SDO client and cleared errors are compared with the fresh-start prediction. SDO servers and LSS are covered by the reset probes of C05 / C18.",
    note=MC_NOTE + " Composition is per component (assume/guarantee): cross-component interference through the reset is visible only via the shared timer pool occupancy, which every component probe observes.",
    technique="TLA+/TLC invariant reset = fresh start + edge-cover x reset-probe behaviours replayed against the C code", ref="DESIGN.md section 8, C20"),
+ "C01": dict(
+   level="exploration",
+   text="A TLA+ model does not observe memory: here the specification (CoChaos) is the systematic history generator - TLC simulation over ~4000 event classes derived from every decoder's case analysis (both SDO servers, NMT, SYNC, PDO, EMCY, heartbeat, all LSS services, SDO client answers, random frames, DLC 0..8, ticks, split service/process, driver faults, out-of-range API arguments) - and the deciding oracle is instrumentation of the real code: "
+        "ASan/UBSan with exact-size heap blocks for every region handed to the stack, CONodeFatalError, a watchdog per behaviour and a frame-flood limit, on a full dictionary and variants lacking optional groups, for CO_SSDO_N = 1/2 and the H0 variant, with pumped events. All other checks run under the same sanitizers and report crashes under their own property, which is where the defects named in the property text were found and fixed.",
+   note="Trusted: sanitizers, harness. Exploration only: no exhaustiveness claim over 2^72 frames; in-struct overruns that stay inside CO_NODE are invisible to the sanitizers and are owned by the behavioural checks. UBSan's alignment check is off (the statement does not list alignment; CO_SDO_BUF_BYTE is odd, so the second server's buffer slice is misaligned for 16/32-bit stores on strict-alignment CPUs - noted in DESIGN.md).",
+   technique="TLC-generated histories (explicit TLA+ alphabet model) replayed under ASan/UBSan/watchdog", ref="DESIGN.md section 8, C01"),
 }
